@@ -88,9 +88,27 @@ func ite(c, a, b string) string {
 	}
 	return sx("ite", c, a, b)
 }
+func isNumLit(a string) bool {
+	if a == "" {
+		return false
+	}
+	for i := 0; i < len(a); i++ {
+		if a[i] < '0' || a[i] > '9' {
+			return false
+		}
+	}
+	return true
+}
+
 func eq(a, b string) string {
 	if a == b {
 		return "true"
+	}
+	if isNumLit(a) && isNumLit(b) {
+		return "false"
+	}
+	if (a == "true" && b == "false") || (a == "false" && b == "true") {
+		return "false"
 	}
 	return sx("=", a, b)
 }
